@@ -330,6 +330,16 @@ def _inherit_case(rng):
         case['base2'] = base2
     names, vals = _inherit_expected(base, derived, case.get('base2'))
     case['values'] = {n: T.jval(T.random_value(rng, T.unstrip(s), present=0.85)) for n, s in names}
+    # the Type number a base field had BEFORE it was overridden is not a Type of the derived model any more: an element
+    # carrying it is an unrecognised element like any other (skipped when non-critical, DecodeError when critical)
+    old = [base[d[1]][1] for d in derived if d[0] == 'ovr'] + \
+          [case['base2'][d[1]][1] for d in derived if d[0] == 'ovr2']
+    old = [t for t in old if t not in {sch[1] for _, sch in names}]
+    if old and rng.random() < 0.7:
+        t = rng.choice(old)
+        pl = rng.choice([b'', bytes([rng.randrange(256)]), bytes(rng.getrandbits(8) for _ in range(rng.choice([2, 4, 8])))])
+        case['mut'] = {'kind': 'ins_noncrit' if t % 2 == 0 else 'ins_crit', 'gap': rng.randint(0, 8), 'r': 0,
+                       'even': t, 'odd': t, 'payload': pl.hex()}
     return case
 
 
